@@ -167,6 +167,12 @@ theorem fine_serializable (D : Discipline) (hD : D.isSafe = true) : FineSerializ
   refine ⟨order, fun i => ?_⟩
   rw [h, fexec_fexpand D hD g _ (quiet_init seed progs) order, finit_abs]
 
+/-- **C17 for the code as it stands, one level down**: for the discipline extracted from the source, every
+    interleaving of its real micro-operations (get/set, lock/read/write/unlock, load/CAS/retry) refines the
+    one-step system `c17` speaks about and is serialisable. Like `c17` it stops type-checking for `racy`/`unknown`. -/
+theorem c17_fine : Refines RngDiscipline.current ∧ FineSerializable RngDiscipline.current :=
+  ⟨fine_refines _ (by decide), fine_serializable _ (by decide)⟩
+
 /-- Mutual exclusion of the fine-grained mutex discipline: after any schedule at most one thread is
     inside a draw, and it holds the lock. -/
 theorem mutex_mutual_exclusion {σ ρ : Type} [DecidableEq σ] (g : Gen σ ρ) (seed : σ) (progs sched : List Nat)
